@@ -176,9 +176,10 @@ let spn_plain (p1 : nat) (p2 : nat) : nat * nat = (p1, p2)
 let getenv_default k d = try Sys.getenv k with Not_found -> d
 let which = getenv_default "CHUM_WHICH" "go"
 let quirks =
-  let q = getenv_default "CHUM_QUIRKS" "11111" in
+  let q = getenv_default "CHUM_QUIRKS" "1111111" in
   let b i = String.length q > i && q.[i] = '1' in
-  { q_zst_noop = b 0; q_look_trunc = b 1; q_trymap_drop = b 2; q_trymap_pos = b 3; q_maperr_drop = b 4 }
+  { q_zst_noop = b 0; q_look_trunc = b 1; q_trymap_drop = b 2; q_trymap_pos = b 3; q_maperr_drop = b 4;
+    q_exact_noalt = b 5; q_emptychoice_none = b 6 }
 
 let run_line (line : string) =
   match parse_sx line with
